@@ -133,7 +133,9 @@ def word(rng):
             suf = ""      # 0x..p+0f : the f is no suffix there
         return sg + txt + suf, [f32(val) if k == "f" else f64(val)]
     if k == "c":
-        c = rng.choice([97, 65, 48, 32, 35, 37, 46, 34, 39, 92, 7, 8, 9, 10, 11, 12, 13, 126])
+        c = rng.choice([97, 65, 48, 32, 35, 37, 46, 34, 39, 92, 7, 8, 9, 10, 11, 12, 13, 126, 0])
+        if c == 0:
+            return "'\\0'", ["c:0"]
         if c == 92 and rng.random() < 0.5:
             return "'\\'", ["c:92"]                # the mistyped backslash
         if c in ESC:
